@@ -149,3 +149,49 @@ pub fn finish(ctx: &mut Ctx, meta: Meta) -> i32 {
     }
     0
 }
+
+/// Adds the counters of a libFuzzer stage (read from `<workdir>/out-*/fuzz-stats.json`) to the evidence file.
+pub fn fuzz_merge(prop: &str, workdir: &str, target: &str) -> i32 {
+    let path = verif_root().join("evidence").join(format!("{}.json", prop));
+    let Ok(text) = std::fs::read_to_string(&path) else { return 2 };
+    let Ok(mut ev) = serde_json::from_str::<Value>(&text) else { return 2 };
+    let (mut runs, mut decoded, mut nt, mut dnt, mut inst) = (0u64, 0u64, 0u64, 0u64, 0u64);
+    let mut samples = vec![];
+    if let Ok(rd) = std::fs::read_dir(workdir) {
+        for e in rd.flatten() {
+            let f = e.path().join("fuzz-stats.json");
+            if let Ok(t) = std::fs::read_to_string(&f) {
+                if let Ok(v) = serde_json::from_str::<Value>(&t) {
+                    inst += 1;
+                    runs += v["runs"].as_u64().unwrap_or(0);
+                    decoded += v["decoded"].as_u64().unwrap_or(0);
+                    nt += v["nontrivial"].as_u64().unwrap_or(0);
+                    dnt += v["distinct_nontrivial"].as_u64().unwrap_or(0);
+                    if let Some(s) = v["sample"].as_str() {
+                        if samples.len() < 2 {
+                            samples.push(serde_json::from_str::<Value>(s).unwrap_or(json!(s)));
+                        }
+                    }
+                }
+            }
+        }
+    }
+    let c = &mut ev["coverage"];
+    c["evaluations"] = json!(c["evaluations"].as_u64().unwrap_or(0) + decoded);
+    c["distinct_nontrivial"] = json!(c["distinct_nontrivial"].as_u64().unwrap_or(0) + dnt);
+    let mut camps = c["campaigns"].as_array().cloned().unwrap_or_default();
+    camps.push(json!({
+        "name": format!("{} (libFuzzer, coverage-guided{})", target, if target == "fuzz_seq" { ", AddressSanitizer + LeakSanitizer" } else { ", schedule bytes fuzzed" }),
+        "instances": inst, "runs": runs, "engine_cases": decoded, "nontrivial": nt,
+        "distinct_nontrivial": dnt,
+        "note": "distinct = distinct case hashes per instance (instances use different seeds; overlaps between instances are not removed)",
+    }));
+    c["campaigns"] = json!(camps);
+    let mut ss = c["samples"].as_array().cloned().unwrap_or_default();
+    ss.extend(samples);
+    c["samples"] = json!(ss);
+    match std::fs::write(&path, serde_json::to_string_pretty(&ev).unwrap_or_default()) {
+        Ok(()) => 0,
+        Err(_) => 2,
+    }
+}
